@@ -2240,6 +2240,18 @@ func PutSyncedTo(ns walletdb.ReadWriteBucket, bs *BlockStamp) error {
 		}
 	}
 
+	// Any block hashes stored above the new tip belong to blocks that have
+	// been rolled back. Remove them, so that a later block at one of those
+	// heights can't pass the previous block check above with a stale entry.
+	for height := bs.Height + 1; ; height++ {
+		if _, err := fetchBlockHash(ns, height); err != nil {
+			break
+		}
+		if err := deleteBlockHash(ns, height); err != nil {
+			return managerError(ErrDatabase, errStr, err)
+		}
+	}
+
 	// Finally, we can update the syncedTo value.
 	if err := updateSyncedTo(ns, bs); err != nil {
 		return managerError(ErrDatabase, errStr, err)
